@@ -76,5 +76,21 @@ CHECKS["C04"] = {
     "note": "bounded: list length <=3 (quick) / <=4 (thorough), 2 valid + 1 convertible + 2 invalid item values per "
             "inner trait; trusted base: the per-trait membership predicates in props/c04_containers.py",
 }
+CHECKS["C01"] = {
+    "category": "exploration",
+    "technique": "bounded exhaustive enumeration of (trait configuration x value lattice x assignment route x pre-state) against independent domain predicates",
+    "text": "About 2100 trait configurations (all scalar/cast types, every open/closed/half-bounded int and float "
+            "Range shape incl. dynamic named bounds, String length/regex grid, Enum, Tuple nestings, Instance/Type/"
+            "Supports/AdaptsTo with allow_none and adapt modes, Callable, PrefixList/PrefixMap/Map, dates, Array "
+            "dtype/shape/casting grid, File/Directory, and every ordered pair of 30 member traits as Either and as "
+            "Union) x a 150-value lattice (boundary floats, NaN/inf, huge ints, subclasses, numpy scalars/arrays, "
+            "objects whose __index__/__float__/__complex__ succeed, return wrong types or raise) x setattr / "
+            "constructor / trait_set x fresh / previously-stored pre-state: the value read back must satisfy an "
+            "independently written in-domain predicate and (where documented) the acceptance and conversion model; "
+            "a rejection must be a TraitError naming the attribute with a bit-identical __dict__; other exceptions "
+            "only from the value's own protocol.",
+    "note": "finite lattice and grid (not all Python values); acceptance model left open where the documentation is "
+            "silent; trusted base: predicates in props/lattice.py",
+}
 
 NOT_CLAIMED = {}
